@@ -4,6 +4,7 @@ import (
 	"go/token"
 	"go/types"
 	"strconv"
+	"strings"
 	"verif/checker/internal/ana"
 
 	"golang.org/x/tools/go/ssa"
@@ -311,4 +312,76 @@ func globalsTouched(fn *ssa.Function) int {
 func isIntType(t types.Type) bool {
 	b, ok := t.Underlying().(*types.Basic)
 	return ok && b.Info()&types.IsInteger != 0
+}
+
+// pureScan is the shared "no mutable package-level state" rule: in every
+// function reachable from the given entry points through static repository
+// calls (closures included) there is no store to a package-level variable and
+// no call that may mutate an object held in (or being) a package-level
+// variable. Such state makes the result depend on the history of calls (and is
+// a data race under concurrent use), which no property here tolerates; the
+// rule fails closed on any cache, memo table, shared scratch buffer or lock.
+func pureScan(c *Ctx, key string, roots ...*ssa.Function) {
+	seen := map[*ssa.Function]bool{}
+	n, bad := 0, 0
+	for _, root := range roots {
+		if root == nil {
+			continue
+		}
+		for _, fn := range reachableRepoFuncs(root) {
+			if seen[fn] || fn.Synthetic == "package initializer" || strings.HasPrefix(fn.Name(), "init#") {
+				continue
+			}
+			seen[fn] = true
+			n++
+			fb := ana.NewBuilder(c.P, fn)
+			for _, blk := range fn.Blocks {
+				for _, ins := range blk.Instrs {
+					switch x := ins.(type) {
+					case *ssa.Store:
+						if g := globalRoot(fb, x.Addr); g != nil {
+							bad++
+							c.R.Viol(key, c.ipos(x), "%s writes package-level variable %s: the result of the API would depend on earlier calls", fn.Name(), g.Name())
+						}
+					case *ssa.MapUpdate:
+						if g := globalRoot(fb, x.Map); g != nil {
+							bad++
+							c.R.Viol(key, c.ipos(x), "%s updates the package-level map %s", fn.Name(), g.Name())
+						}
+					case ssa.CallInstruction:
+						cc := x.Common()
+						if cc.IsInvoke() {
+							if g := globalRoot(fb, cc.Value); g != nil && fb.MayMutateOperand(cc, -1) {
+								bad++
+								c.R.Viol(key, c.ipos(x), "%s calls the mutating method %s on the object held in package-level variable %s", fn.Name(), cc.Method.Name(), g.Name())
+							}
+						}
+						for i, a := range cc.Args {
+							if g := globalRoot(fb, a); g != nil && fb.MayMutateOperand(cc, i) {
+								bad++
+								c.R.Viol(key, c.ipos(x), "%s passes package-level state %s to %s, which may mutate it (cache / shared scratch / lock): results depend on call history and concurrent callers interfere", fn.Name(), g.Name(), ana.CalleeName(cc))
+							}
+						}
+					}
+				}
+			}
+		}
+	}
+	if bad == 0 {
+		c.R.OK(key, "", "%d functions reachable from the entry points: no store to, and no mutating call on, package-level state", n)
+	}
+}
+
+// globalRoot returns the package-level variable v is (an address into) or was loaded from.
+func globalRoot(b *ana.Builder, v ssa.Value) *ssa.Global {
+	root := b.Root(v)
+	if g, ok := root.(*ssa.Global); ok {
+		return g
+	}
+	if ld, ok := root.(*ssa.UnOp); ok && ld.Op.String() == "*" {
+		if g, ok := b.Root(ld.X).(*ssa.Global); ok {
+			return g
+		}
+	}
+	return nil
 }
